@@ -64,6 +64,7 @@ class Recorder:
         self.rng_jump = _r.Random(case.get("jump_seed", 0))
         self.matrix_version = 0
         self.stale_makeH = []
+        self.rescaled = []      # in-place rescalings of the evolving state outside do_random_quantum_jump
         self.queries = 0
 
     def ev(self, code, ints=(), floats=()):
@@ -84,6 +85,11 @@ class FakeState:
         return self
 
     def __imul__(self, other):
+        # `self.state *= c` on the evolving state: legitimate only inside do_random_quantum_jump (renormalisation after
+        # the jump).  Anywhere else it resets the norm the quantum-jump clock is read from.
+        rec = self.rec
+        if not rec.in_jump and getattr(rec, "impl", None) is not None:
+            rec.rescaled.append((float(rec.impl.current_time), bool(rec.in_fill)))
         return self
 
     def norm(self):
@@ -353,7 +359,7 @@ def _run_impl(case, observables=None):
                 n += 1
                 snaps.append(snapshot(impl))
             return dict(outcome="finished", snapshots=snaps, events=rec.events, impl=impl,
-                        norm_log=rec.norm_log, stale_makeH=rec.stale_makeH)
+                        norm_log=rec.norm_log, stale_makeH=rec.stale_makeH, rescaled=rec.rescaled)
         except tuple(ERR_CLASS) as ex:
             # the model reports the trace up to the last completed progress() on an error
             return dict(outcome=ERR_CLASS[type(ex)], snapshots=snaps, events=rec.events[:mark],
